@@ -367,6 +367,22 @@ def io_Read (s : Src) (n : Int) : List UInt8 × Option Err × Src :=
   | [] => ([], if s.fail then io_srcErr else io_EOF, s)
   | _ => (s.data.take n.toNat, none, ⟨s.data.drop n.toNat, s.fail⟩)
 
+/-! ## sort.Strings: Go strings compare bytewise -/
+
+def bytesLe : List UInt8 → List UInt8 → Bool
+  | [], _ => true
+  | _ :: _, [] => false
+  | a :: as, b :: bs => if a < b then true else if b < a then false else bytesLe as bs
+
+def insertSorted (x : List UInt8) : List (List UInt8) → List (List UInt8)
+  | [] => [x]
+  | y :: ys => if bytesLe x y then x :: y :: ys else y :: insertSorted x ys
+
+/-- `sort.Strings` (as a function: the sorted slice) -/
+def sort_Strings : List (List UInt8) → List (List UInt8)
+  | [] => []
+  | x :: xs => insertSorted x (sort_Strings xs)
+
 /-! ## io.LimitReader, bufio.Scanner (default split function ScanLines, default buffer)
 
 A source of bytes (`io.Reader`) is the byte string it delivers before a clean
